@@ -22,3 +22,19 @@ PROPS = {
         assumptions=["hash_type + 255 < 2^32 (the five published hash types satisfy it)"],
     ),
 }
+
+PROPS["C17"] = dict(
+    rule=("generated schemas of 1..24 fields over all nine field types (arrays of 1..4 elements, key field anywhere) x "
+          "tables of 0..2000 (quick) / 10^4 (thorough) records with duplicate, empty and non-ASCII strings and duplicate "
+          "keys; every table goes source bytes -> Rust parse -> Rust write -> Rust/Lean parse, through eager, lazy, "
+          "iterator, parallel, mmap readers and hashed / binary-searched key lookups; plus truncations and boundary "
+          "header values of valid files. non-trivial = table with >= 2 distinct non-empty strings; distinct by FNV hash "
+          "of schema+table"),
+    trusted_base=COMMON_TB + [
+        "Model.C17Dbc is the complete WDBC format as wow-cdbc implements it (header, records, string block, interning "
+        "order, UTF-8 check); WDB2/WDB5 headers are not modelled",
+        "Rust std's binary_search_by_key and sort_by_key contracts (sortedness is proved, the search itself is std's)",
+        "rayon chunking in parse_records_parallel is observed, not modelled (see C09 for the scheduling argument)"],
+    assumptions=["table counts and sizes fit the 32-bit header fields (Fits)",
+                 "strings are NUL-free well-formed UTF-8 (the API hands out &str)"],
+)
